@@ -122,7 +122,7 @@ def _alpha_random(rng, n, T):
 
 def _items(rng, n_random, n_combos, n_soft):
     items = []
-    for spec in _corpus_specs() + [S.random_spec(rng, exclude=S.IMPURE_INSIDE) for _ in range(n_random)]:
+    for spec in _corpus_specs() + [S.random_spec(rng, exclude=S.IMPURE_INSIDE | S.SIDE_USER_INSIDE | {'stmt'}) for _ in range(n_random)]:
         sizes = [len(b['br']) for b in spec['blocks']]
         total = 1
         for s in sizes:
